@@ -161,6 +161,10 @@ class RoundTrips(Suite):
                                 ('>U3', ['a', 'abc', 'é']), ('=i2', [1, 2, 3]))],
                 dict(kind='numpy', dtype='>i4', shape=[2, 2], data=[1, 2, 3, 4], slice=False, fortran=True, complex=False),
                 dict(kind='listnumpy', arrays=[[[1, 2], '>i4'], [[3.5], '>f8'], [[7], '<u2']]),
+                # strings and keys that look like printed lists of numbers, inside values that are written with indentation
+                dict(kind='json', value={'repr': 'array([ 1.5, 10. ])', 'bins [ 1, 2 ]': ['shape=[ 3,   224,   224 ]', '[ 1,\n  2 ]', '[\u00a01,\u00a02 ]'],
+                                         'nums': [1, 2, 3], 'nested': [[1.5, -0.0], [], [[2 ** 63 - 1]]]}),
+                dict(kind='json', value=['[ 1, 2 ]', ' [1,2] ', '[\n    1,\n    2\n]', {'[\n  1\n]': '[ ]'}]),
                 # values that the declared type admits without being of exactly that type (a bool is an int, ...)
                 dict(kind='json', value=True, declared='int'), dict(kind='json', value=False, declared='int'),
                 dict(kind='json', value=True, declared='bool'), dict(kind='json', value=3, declared='int'),
